@@ -143,7 +143,8 @@ def _real_friends(n, rows, cells):
     a.nRa = [len(b) for b in cells]
     a.chunkList = cells
     try:
-        out = a.friendsoffriends(np.arange(n, dtype='d'), np.zeros(n), 0.5)
+        with core.time_limit(60):
+            out = a.friendsoffriends(np.arange(n, dtype='d'), np.zeros(n), 0.5)
     except Exception as e:
         return {'err': core.exc_kind(e), 'msg': str(e)[:200]}
     return {'in': [int(x) for x in out[0]], 'mult': [int(x) for x in out[1]], 'first': [int(x) for x in out[2]],
@@ -479,7 +480,9 @@ def _run_sphere(c):
         with warnings.catch_warnings():
             warnings.simplefilter('ignore')
             with mock.patch.object(sg.chunks, 'friendsoffriends', spy):
-                out = sg.spheregroup(ra.copy(), dec.copy(), ll, chunksize=cs)
+                # every search of the cross-chunk merge terminates (merge_refines): a call that does not return is an answer
+                with core.time_limit(60 + n // 10):
+                    out = sg.spheregroup(ra.copy(), dec.copy(), ll, chunksize=cs)
         res['impl'] = {'in': [int(x) for x in out[0]], 'mult': [int(x) for x in out[1]],
                        'first': [int(x) for x in out[2]], 'next': [int(x) for x in out[3]]}
     except Exception as e:
@@ -769,6 +772,17 @@ def _sphere_cases(ctx, count):
         if not _undecided(np.array(ra), np.array(dec), ll):
             cs, csk = _bound_cells(ra, dec, ll, None, 'none')
             cases.append({'stream': 'sphere', 'kind': 'polar-ring', 'cs': csk, 'll': ll, 'chunksize': cs, 'ra': ra, 'dec': dec})
+    # exactly two positions ("two or more"): linked and not linked, along RA, along Dec, across the seam
+    for _ in range(max(6, count // 25)):
+        ll = rng.choice([1.0 / 3600, 0.05, 1.0, 5.0]) * rng.uniform(0.8, 1.25)
+        d0 = rng.uniform(-70, 70)
+        a0 = rng.choice([rng.uniform(0, 360), 0.0, 359.999])
+        f = rng.choice([0.5, 0.9, 1.5, 3.0])
+        th = rng.choice([0.0, math.pi / 2, rng.uniform(0, 2 * math.pi)])
+        ra = [a0 % 360.0, (a0 + f * ll * math.cos(th) / math.cos(math.radians(d0))) % 360.0]
+        dec = [d0, d0 + f * ll * math.sin(th)]
+        if not _undecided(np.array(ra), np.array(dec), ll):
+            cases.append({'stream': 'sphere', 'kind': 'two-points', 'cs': 'none', 'll': ll, 'chunksize': None, 'ra': ra, 'dec': dec})
     cases.append({'stream': 'sphere', 'kind': 'one-point', 'cs': 'none', 'll': 1.0, 'chunksize': None, 'ra': [10.0], 'dec': [5.0]})
     return cases
 
